@@ -118,6 +118,12 @@ impl Property for C17 {
         let v6 = rng.chance(1, 2);
         sc.world.v6 = v6;
         sc.net = swarm_net(&mut rng, &[0, 5, 50], false);
+        // in one run of three a good share of the node's sends fail (ENETUNREACH, EPERM, EAGAIN): what
+        // it emits afterwards must still be well-formed, single messages of legal size
+        if rng.chance(1, 3) {
+            sc.net.send_err_ppm = *rng.pick(&[100_000u32, 300_000, 600_000]);
+            sc.params.insert("send_errors".into(), 1);
+        }
         let mut real = default_real(v6, 0, &mut rng);
         real.read_only = false;
         let own = real.id.unwrap();
@@ -230,6 +236,9 @@ impl Property for C17 {
         if max_len > 1000 {
             v.hit("datagram_over_1000_bytes");
         }
+        if run.stats.get("fault_send_err").copied().unwrap_or(0) > 10 {
+            v.hit("sends_failing");
+        }
         if sc.param("churn") > 0 {
             v.hit("day_of_churn_below_known_threshold");
         }
@@ -243,12 +252,12 @@ impl Property for C17 {
         v
     }
     fn rule(&self) -> &'static str {
-        "3 of 4 cases: one real serving node with 0..160 stub contacts at chosen prefix depths; 0..520 valid announces for one info-hash (IPv4, IPv6 or mixed); get_peers and find_node probes with every want combination, both requester families, transaction ids of 0..32 bytes; announces with never-issued tokens of 0..1300 bytes; plus the node's own bootstrap, refresh and announcing-search traffic; 1 of 6 of these: 25 virtual hours of churn on one info-hash (a seeder re-announcing, two generations of 25..140 one-shot peers) with live peers below the known-finding threshold; the length of every buffer passed to the socket is checked; 1 of 4 cases: the same monitor over scenarios of the C02, C03, C05 and C09 families. non-trivial = the node sent more than two datagrams; distinct = distinct order digests"
+        "3 of 4 cases: one real serving node with 0..160 stub contacts at chosen prefix depths; 0..520 valid announces for one info-hash (IPv4, IPv6 or mixed); get_peers and find_node probes with every want combination, both requester families, transaction ids of 0..32 bytes; announces with never-issued tokens of 0..1300 bytes; plus the node's own bootstrap, refresh and announcing-search traffic; 1 of 6 of these: 25 virtual hours of churn on one info-hash (a seeder re-announcing, two generations of 25..140 one-shot peers) with live peers below the known-finding threshold; in 1 run of 3 10..60 % of the sends of the node fail; the length of every buffer passed to the socket is checked; 1 of 4 cases: the same monitor over scenarios of the C02, C03, C05 and C09 families. non-trivial = the node sent more than two datagrams; distinct = distinct order digests"
     }
     fn assumptions(&self) -> Vec<&'static str> {
         vec!["known finding (open): a get_peers reply whose excess over 1500 bytes is accounted for by its values list AND whose values are exactly live, distinct, same-family announced contacts (store model as in C07) is reported as KNOWN-FINDING, every other oversize datagram as VIOLATION"]
     }
     fn required_reach(&self) -> Vec<&'static str> {
-        vec!["datagram_over_1000_bytes", "store_full", "monitor_over_other_families", "day_of_churn_below_known_threshold"]
+        vec!["datagram_over_1000_bytes", "store_full", "monitor_over_other_families", "day_of_churn_below_known_threshold", "sends_failing"]
     }
 }
